@@ -1,7 +1,50 @@
 import FormulaeModel.Driver.Base
+import FormulaeModel.Driver.C04
+import FormulaeModel.Driver.C10
+import FormulaeModel.Spec.C09
+import FormulaeModel.Generated.Tables
 namespace FormulaeModel.Driver.C09
-open Lean FormulaeModel FormulaeModel.Driver
+open Lean FormulaeModel FormulaeModel.Driver FormulaeModel.Design FormulaeModel.Driver.C04 FormulaeModel.NA
 
-def handle (_op : String) (_j : Json) : Option Json := none
+def insertStr (x : String) : List String → List String
+  | [] => [x]
+  | y :: ys => if x ≤ y then x :: y :: ys else y :: insertStr x ys
+
+def sortedDedup (xs : List String) : List String := (dedupL xs).foldr insertStr []
+
+def withAst (j : Json) (k : Expr → Json) : Json :=
+  match Scanner.scan (getStr j "formula").toList with
+  | .error _ => errJ "scan"
+  | .ok ts =>
+    match Parser.parse Generated.parserTable ts with
+    | .error _ => errJ "parse"
+    | .ok e => k e
+
+def handle (op : String) (j : Json) : Option Json :=
+  match op with
+  | "c09_rows" => some (withAst j (fun e =>
+      let frame := frameOfJson ((j.getObjVal? "frame").toOption.getD Json.null)
+      let cols := frame.map (·.name)
+      -- model: var_names ∩ columns, the NA step for the requested action
+      let used := (formulaVars e).filter cols.contains
+      let action := getStr j "action"
+      let step : Json := match naStep Generated.naActions action used frame with
+        | .ok f => Json.mkObj [("rows", f.nrows), ("cols", jStrs (sortedDedup (f.map (·.name))))]
+        | .error _ => errJ "ValueError"
+      -- spec: used columns by `freeVars`, complete rows
+      Json.mkObj [("model_used", jStrs (sortedDedup used)), ("model_step", step),
+                  ("spec_used", jStrs (sortedDedup (Spec.C09.usedColumns e frame))),
+                  ("complete", Json.arr ((Spec.C09.completeRows e frame).map Json.bool).toArray)]))
+  | "c09_spec" =>
+    let parts := (getArr j "parts").map (fun p =>
+      let a := matrixOfJson ((p.getObjVal? "a").toOption.getD Json.null)
+      let b := matrixOfJson ((p.getObjVal? "b").toOption.getD Json.null)
+      match getStr p "rule" with
+      | "equal" => Json.bool (Spec.C09.matricesEqual a b)
+      | "pass" => Json.bool (Spec.C09.passRule a b (Driver.C10.strLists p "col_vars")
+                              (Driver.C10.strLists p "row_missing"))
+      | _ => Json.bool false)
+    some (Json.mkObj [("parts", Json.arr parts.toArray)])
+  | _ => none
 
 end FormulaeModel.Driver.C09
